@@ -119,7 +119,7 @@ func (r *rpRun) setup(tag string) error {
 		return op.GetEntry(), nil
 	}
 	switch r.in.Dag {
-	case "A", "F":
+	case "A", "F", "G", "H":
 		rc, err := r.nodes["c"].Open(addr, "keyvalue", nil)
 		if err != nil {
 			return err
@@ -466,6 +466,28 @@ func (r *rpRun) apply(st Step, prev map[string]interface{}) error {
 		if ok != wantOK {
 			r.res.note("%s step %d: fetch of item %d ok=%v, specification ok=%v", r.bid, r.step, item, ok, wantOK)
 			return errDriftR
+		}
+	case "SFetchErr":
+		// the read of the block fails: it is denied on the replica for the time of this fetch
+		w := asInt(st.Args[0])
+		item := asInt(specWorkers(prev)[w-1]["item"])
+		p := r.parkedWorkerByItem("repl.fetch", item, d)
+		if p == nil {
+			return fmt.Errorf("worker of item %d not parked before its fetch", item)
+		}
+		pa := r.nodes["a"].P
+		pa.Deny(r.entries[item].GetHash())
+		h.Release(p)
+		f := r.parkedWorkerByItem("repl.fetched", item, d)
+		pa.Allow(r.entries[item].GetHash())
+		if f == nil {
+			return fmt.Errorf("fetch of item %d did not return", item)
+		}
+		if len(f.Args) >= 5 && f.Args[4] == nil {
+			if l, isLog := f.Args[3].(ipfslog.Log); isLog && l != nil && l.Len() > 0 {
+				r.res.note("%s step %d: the fetch of item %d brought entries although its block was denied", r.bid, r.step, item)
+				return errDriftR
+			}
 		}
 	case "Finish":
 		w := asInt(st.Args[0])
@@ -947,7 +969,7 @@ func replicatorCmd(args []string) int {
 		r := &rpRun{in: in, res: res, bid: b.ID}
 		r.run(b, i)
 	}
-	if in.Dag == "A" {
+	if in.Dag == "A" || in.Dag == "G" || in.Dag == "H" {
 		for _, deny := range [][]int{{2}, {1}, {1, 2}, {3}} {
 			r := &rpRun{in: in, res: res, bid: fmt.Sprintf("fetch-error-%v", deny)}
 			r.fetchErrors(deny)
